@@ -114,3 +114,6 @@ Lemma example_header_value :
     (ctor_model (fun _ v => v) (fun arg => if String.eqb arg "level" then VOther "3" true else VNone) None (entries_of "Header") [])
   = VStr "3".
 Proof. vm_compute. reflexivity. Qed.
+
+Lemma propdefs_match_reference : forall x, In x propdefs -> matches_reference x = true.
+Proof. exact (proj1 (forallb_forall matches_reference propdefs) sweep_matches_reference). Qed.
